@@ -486,7 +486,7 @@ var Prop = pbt.Register(pbt.Prop[Case]{
 	Name: "TestJSONToProto",
 	Rule: "generated proto3 schema + reference message rendered as JSON (members in drawn order, keyed by field name or JSON name, whitespace / escape / float spelling variants, null members for unset fields, map entries with a null value (denoting nothing), unknown members with scalar/array/object values, nested message sizes padded to 126..129 / 16382..16385); j2p output must be accepted by protobuf-go and proto.Equal to the message; a member with a wrong-kind value must yield an error; unknown member + DisallowUnknownField => ErrUnknownField; the returned bytes stay intact during a second conversion of the same document with other string contents; non-trivial = nesting >= 2 and a length-delimited payload >= 128 bytes",
 	Gen: func(t *rapid.T) Case {
-		sc := pmodel.GenSchema(t, pmodel.GenOpts{AllKinds: rapid.IntRange(0, 3).Draw(t, "allKinds") == 0, KeyKinds: pmodel.SupportedKeyKinds})
+		sc := pmodel.GenSchema(t, pmodel.GenOpts{JSONNames: true, AllKinds: rapid.IntRange(0, 3).Draw(t, "allKinds") == 0, KeyKinds: pmodel.SupportedKeyKinds})
 		comp, err := pmodel.Compile(sc.Render(), sc.Main)
 		if err != nil {
 			t.Fatalf("generator produced an invalid schema: %v", err)
@@ -525,3 +525,55 @@ var Prop = pbt.Register(pbt.Prop[Case]{
 })
 
 func TestJSONToProto(t *testing.T) { pbt.Run(t, Prop) }
+
+// ---------------------------------------------------------------------------
+// capacity sweep: the message j2p writes must not depend on the capacity of the caller's buffer
+
+func checkSweep(c *pbt.Ctx, cs Case) {
+	comp, err := pmodel.Compile(cs.Schema.Render(), cs.Schema.Main)
+	if err != nil || comp.SvcErr != nil {
+		c.Failf("harness-schema", "schema rejected: %v %v", err, comp.SvcErr)
+	}
+	desc := comp.Svc.LookupMethodByName("Call").Input()
+	cv := j2p.NewBinaryConv(conv.Options{DisallowUnknownField: cs.Disallow})
+	reg := region(cs)
+	doc := []byte(cs.JSON)
+	big := make([]byte, 0, 1<<20)
+	var err0 error
+	if !c.Protect(reg, func() { err0 = cv.DoInto(context.Background(), desc, doc, &big) }) {
+		return
+	}
+	hi := len(big) + 40
+	if hi > 2600 {
+		hi = 2600
+	}
+	c.Step("j2p.DoInto with every capacity 0..%d (large-buffer result: %d bytes, err=%v)", hi, len(big), err0)
+	for capn := 0; capn <= hi; capn++ {
+		buf := make([]byte, 0, capn)
+		var e error
+		if !c.Protect(reg, func() { e = cv.DoInto(context.Background(), desc, doc, &buf) }) {
+			return
+		}
+		if (e == nil) != (err0 == nil) || (e == nil && !bytes.Equal(buf, big)) {
+			if c.Fail(reg, "capacity-dependent", "j2p.DoInto with capacity %d: err=%v, %d bytes; with a large buffer: err=%v, %d bytes\n%x\nvs\n%x", capn, e, len(buf), err0, len(big), buf, big) {
+				return
+			}
+		}
+	}
+	if string(doc) != cs.JSON {
+		c.Failf("input-modified", "j2p.DoInto modified its input")
+	}
+	c.NonTrivial()
+	if err0 != nil {
+		c.Class("rejected")
+	}
+}
+
+var SweepProp = pbt.Register(pbt.Prop[Case]{
+	Name:  "TestJ2PCapacitySweep",
+	Rule:  "the schemas, documents and option sets of TestJSONToProto; j2p.DoInto into caller buffers of every capacity from 0 to the output size + 40 (at most 2600): error-ness and bytes must equal the conversion into a 1 MiB buffer, no panic; every case is non-trivial",
+	Gen:   Prop.Gen,
+	Check: checkSweep,
+})
+
+func TestJ2PCapacitySweep(t *testing.T) { pbt.Run(t, SweepProp) }
